@@ -66,7 +66,9 @@ TRASHDIR_OPT = [None, '/v/td', '/h/td']
 FALLBACK = [(False, None), (True, None), (False, '1'), (True, '1')]
 TOP_STATES = ['absent', 'sticky', 'nonsticky', 'link-sticky', 'link-nonsticky', 'file']
 ALT_STATES = ['absent', 'dir', 'file']
-PRE = ['none', 'pair', 'orphan', 'lone-info']
+PRE = ['none', 'pair', 'orphan', 'lone-info', 'long-name', 'long-name-orphan-file', 'long-name-orphan-dir']
+LONG = 'L' * 250
+LONG_T1 = 'L' * 238 + '_1'  # payload name of the first truncated info name
 
 
 def entry_nodes(kind, path='/v/d/x'):
@@ -86,12 +88,13 @@ def entry_nodes(kind, path='/v/d/x'):
 
 
 def make_world(kind, top, alt, pre):
+    name = LONG if PRE[pre].startswith('long-name') else 'x'
     nodes = [W.d('/h'), W.d('/v/d'), W.d('/v/d/sub'), W.f('/v/d/sub/keep', 'K', 0o644, 900),
              W.l('/v/lp', '/v/d', 901), W.f('/v/n/inner', 'INNER', 0o644, 902), W.d('/v/n/nd'),
              W.f('/v/n/nd/deep', 'DEEP', 0o644, 903),
              W.f('/v/out/target.txt', 'TARGET', 0o644, 904), W.f('/v/out/tdir/t', 'T', 0o644, 905),
              W.f('/v/d/other', 'OTHER', 0o644, 906)]
-    nodes += entry_nodes(kind)
+    nodes += entry_nodes(kind, '/v/d/' + name)
     ts = TOP_STATES[top]
     tdirs = []
     if ts == 'sticky':
@@ -119,6 +122,10 @@ def make_world(kind, top, alt, pre):
     for td in tdirs:
         if p in ('pair', 'orphan'):
             nodes.append(W.f(td + '/files/x', 'OLD-PAYLOAD', 0o644, 911))
+        if p == 'long-name-orphan-file':
+            nodes.append(W.f(td + '/files/' + LONG_T1, 'OLD-LONG', 0o644, 913))
+        if p == 'long-name-orphan-dir':
+            nodes += [W.d(td + '/files/' + LONG_T1), W.f(td + '/files/' + LONG_T1 + '/keep', 'OLD-IN', 0o644, 914)]
         if p in ('pair', 'lone-info'):
             nodes.append(W.f(td + '/info/x.trashinfo', '[Trash Info]\nPath=d/x\nDeletionDate=2019-01-01T00:00:00\n',
                              0o600, 912))
@@ -128,6 +135,10 @@ def make_world(kind, top, alt, pre):
 def scenario(kind, sp, mode, td, fb, top, alt, pre, verbose):
     world = make_world(kind, top, alt, pre)
     arg, target, family = SPELLINGS[sp]
+    if PRE[pre].startswith('long-name') and family == 'entry':
+        cut = len(arg.rstrip('/'))
+        arg = arg[:cut - 1] + LONG + arg[cut:]
+        target = target[:-1] + LONG
     opts, stdin = MODES[mode]
     args = list(opts)
     if TRASHDIR_OPT[td]:
@@ -183,6 +194,15 @@ def oracle(results, arg, target, family, label):
             okp, pth, date = scen.spec_parse_info(scen.sub(after, infos[0])[2])
             if not okp:
                 return rt.fail('C01:unparseable-info:' + label, 'arg %r: info %r not parseable' % (arg, infos[0]))
+            bn = posixpath.basename(tdir)
+            topdir_kind = bn.startswith('.Trash-') or posixpath.basename(posixpath.dirname(tdir)) == '.Trash'
+            if topdir_kind:
+                top = posixpath.dirname(tdir) if bn.startswith('.Trash-') else posixpath.dirname(posixpath.dirname(tdir))
+                if pth.startswith('/') or posixpath.normpath(posixpath.join(top, pth)) != target:
+                    return rt.fail('C01:recorded-path-wrong:topdir:' + label, 'arg %r trashed in %s with Path=%r (must be relative to %s and designate %s)' % (
+                        arg, tdir, pth, top, target))
+            elif tdir.endswith('/.local/share/Trash') and pth != target:
+                return rt.fail('C01:recorded-path-wrong:home:' + label, 'arg %r trashed in the home trash with Path=%r (must be the absolute %s)' % (arg, pth, target))
             if failed:
                 return rt.fail('C01:failure-reported-but-trashed:%s:%s' % (family, label),
                                'arg %r: exit %r but the entry was moved to %r' % (arg, res['exit'], w))
@@ -201,7 +221,7 @@ def _case(kind, sp, mode, td, fb, top, alt, pre, verbose):
         world, steps, arg, target, family = scenario(kind, sp, mode, td, fb, top, alt, pre, verbose)
         rt.begin((KINDS[kind], arg, MODES[mode], TRASHDIR_OPT[td], FALLBACK[fb], TOP_STATES[top], ALT_STATES[alt], PRE[pre], verbose))
         m, results = scen.run_model(world, steps)
-        label = '%s:%s' % (KINDS[kind], arg)
+        label = '%s:%s' % (KINDS[kind], arg if len(arg) < 30 else arg[:6] + '..(%d bytes)' % len(arg))
         return oracle(results, arg, target, family, label)
 
 
@@ -215,10 +235,10 @@ def w_spell(kind: int, sp: int, mode: int) -> str:
 
 def w_dirs(kind: int, top: int, alt: int, pre: int, sp: int) -> str:
     """
-    pre: 0 <= kind < 6 and 0 <= top < 6 and 0 <= alt < 3 and 0 <= pre < 4 and 0 <= sp < 3
+    pre: 0 <= kind < 6 and 0 <= top < 6 and 0 <= alt < 3 and 0 <= pre < 7 and 0 <= sp < 3
     post: _ == ''
     """
-    return _case(rt.sel(kind, 6), rt.of([0, 4, 6], sp), 0, 0, 0, rt.sel(top, 6), rt.sel(alt, 3), rt.sel(pre, 4), 0)
+    return _case(rt.sel(kind, 6), rt.of([0, 4, 6], sp), 0, 0, 0, rt.sel(top, 6), rt.sel(alt, 3), rt.sel(pre, 7), 0)
 
 
 def w_opts(kind: int, td: int, fb: int, alt: int, verbose: int, sp: int) -> str:
@@ -233,10 +253,10 @@ def w_full(kind: int, sp: int, mode: int, td: int, fb: int, top: int, alt: int, 
     """
     pre: PARTITION is None or (kind == PARTITION[0] and top == PARTITION[1])
     pre: 0 <= kind < 6 and 0 <= sp < 22 and 0 <= mode < 8 and 0 <= td < 3 and 0 <= fb < 4
-    pre: 0 <= top < 6 and 0 <= alt < 3 and 0 <= pre < 4
+    pre: 0 <= top < 6 and 0 <= alt < 3 and 0 <= pre < 7
     post: _ == ''
     """
-    return _case(rt.sel(kind, 6), rt.sel(sp, 22), rt.sel(mode, 8), rt.sel(td, 3), rt.sel(fb, 4), rt.sel(top, 6), rt.sel(alt, 3), rt.sel(pre, 4), 0)
+    return _case(rt.sel(kind, 6), rt.sel(sp, 22), rt.sel(mode, 8), rt.sel(td, 3), rt.sel(fb, 4), rt.sel(top, 6), rt.sel(alt, 3), rt.sel(pre, 7), 0)
 
 
 PUT_FUNCS = ['trashcli.put.main.main', 'TrashPutCmd.run_put', 'Parser.parse_args', 'Context.trash_each',
@@ -258,7 +278,7 @@ def obligations(tier):
         CH('W_spelling_x_kind_x_mode', MOD, 'w_spell', timeout=600, engine='W', regime='selector',
            encodes=PUT_FUNCS, stubs=STUBS, bounds='6 kinds x 22 spellings x 8 mode/reply combinations; default options'),
         CH('W_trashdir_states', MOD, 'w_dirs', timeout=900, engine='W', regime='selector',
-           encodes=PUT_FUNCS, stubs=STUBS, bounds='6 kinds x 6 .Trash states x 3 .Trash-uid states x 4 pre-existing x 3 spellings'),
+           encodes=PUT_FUNCS, stubs=STUBS, bounds='6 kinds x 6 .Trash states x 3 .Trash-uid states x 7 pre-existing (incl. 250-byte names with an orphan on the truncated name) x 3 spellings'),
         CH('W_options', MOD, 'w_opts', timeout=900, engine='W', regime='selector',
            encodes=PUT_FUNCS, stubs=STUBS, bounds='6 kinds x 3 --trash-dir x 4 fallback x 3 .Trash-uid x 3 -v x 3 spellings'),
     ]
@@ -266,5 +286,5 @@ def obligations(tier):
         parts = [(k, t) for k in range(6) for t in range(6)]
         obs.append(CH('W_full_product', MOD, 'w_full', timeout=3000, partitions=parts, twin=False, engine='W',
                       regime='selector', encodes=PUT_FUNCS, stubs=STUBS,
-                      bounds='full product 6 kinds x 22 spellings x 8 modes x 3 trash-dir x 4 fallback x 6 x 3 x 4 states'))
+                      bounds='full product 6 kinds x 22 spellings x 8 modes x 3 trash-dir x 4 fallback x 6 x 3 x 7 states'))
     return obs
